@@ -376,6 +376,10 @@ fn idx_of(name: &str) -> usize {
     name[a..b].parse().unwrap()
 }
 
+fn idx_hint(name: &str) -> u64 {
+    name.bytes().fold(0u64, |a, b| a.wrapping_mul(131).wrapping_add(b as u64))
+}
+
 fn apply_lens(tx: &mut Script, l: &Lens, rng: &mut Rng) {
     let n = l.name.as_str();
     let field = n.rsplit('.').next().unwrap();
@@ -1013,12 +1017,20 @@ fn gen_case(seed: u64, worker: u64, idx: u64) -> Result<Case, String> {
     for i in pred_idx.iter() {
         generous[*i] = Some(ref_run(&tx, *i, gas_cap, &cp, &storage)?);
     }
+    let mut cap_override: Option<u64> = None;
     let mode = if intended_good { rng.below(100) * 70 / 100 } else { rng.below(100) };
     let victim = if pred_idx.is_empty() { usize::MAX } else { *rng.pick(&pred_idx) };
     for i in pred_idx.iter() {
         let u = generous[*i].as_ref().unwrap().gas_used;
         let declared = match mode {
             0..=54 => u,
+            55..=79 if *i == victim && pred_idx.len() == 1 && u > 0 && rng.below(4) == 0 => {
+                // the chain's per-predicate maximum is exactly what this predicate uses and
+                // the declared gas lies above it: "exactly its declared gas" is about the
+                // declared amount, whatever the chain's maximum
+                cap_override = Some(u);
+                u + 1 + rng.below(60)
+            }
             55..=79 if *i == victim => match rng.below(7) {
                 0 => u + 1,
                 1 => u.saturating_sub(1),
@@ -1037,6 +1049,17 @@ fn gen_case(seed: u64, worker: u64, idx: u64) -> Result<Case, String> {
         };
         tx.inputs_mut()[*i].set_predicate_gas_used(declared);
     }
+    let gas_cap = match cap_override {
+        Some(c) => {
+            cp.set_predicate_params(PredicateParameters::DEFAULT.with_max_gas_per_predicate(c));
+            for i in pred_idx.iter() {
+                generous[*i] = Some(ref_run(&tx, *i, c, &cp, &storage)?);
+            }
+            defects.push("declared predicate gas above the chain's per-predicate maximum");
+            c
+        }
+        None => gas_cap,
+    };
     // --- tight per-transaction budget (estimation budgets bind; estimation unjudged)
     let tight = rng.chance(6, 100);
     if tight {
@@ -1333,6 +1356,31 @@ fn signature_checks(case: &Case, rep: &mut Report, erng: &mut Rng, replay: &dyn 
                             rep.violation(format!("C20|mutation|{shape}|{why}"), format!("lens {}", l.name), || mrep(json!(null)));
                         } else {
                             rep.count("mutation_rejected_as_required");
+                        }
+                        // the same change made in place on the accepted transaction object
+                        // (taken back out of its `Checked` wrapper, cached metadata and all),
+                        // then checked again from the start: the signatures were made over
+                        // the old content
+                        if let Some(c) = &checked {
+                            let mut t2: Script = c.transaction().clone();
+                            let mut lrng2 = Rng::derive(0x20c, idx_hint(&l.name), 0);
+                            apply_lens(&mut t2, &l, &mut lrng2);
+                            if t2 != *c.transaction() {
+                                let again = guarded(|| match t2.clone().into_checked_basic(case.height, &case.cp) {
+                                    Ok(c2) => c2.check_signatures(&chain).map(|_| ()).map_err(|e| format!("{e:?}")),
+                                    Err(e) => Err(format!("{e:?}")),
+                                });
+                                rep.eval();
+                                match again {
+                                    Ok(Ok(())) => rep.violation(
+                                        format!("C20|mutation in place|{shape}|accepted transaction changed in place and checked again is still accepted"),
+                                        format!("lens {} applied to the transaction inside Checked (metadata cached), then into_checked_basic + check_signatures: Ok", l.name),
+                                        || mrep(json!({"in_place": true})),
+                                    ),
+                                    Ok(Err(_)) => rep.count("in_place_mutation_rejected_as_required"),
+                                    Err(_) => rep.count("host_panic|recheck(mutated in place)"),
+                                }
+                            }
                         }
                     }
                     LensKind::Malleable | LensKind::WitnessUnreferenced => {
@@ -1656,7 +1704,7 @@ fn one_case(seed: u64, worker: u64, idx: u64, pool: &DirtyPool, rep: &mut Report
 }
 
 pub fn run(cfg: &Cfg) -> Report {
-    let rule = "generated script transactions with 1..8 inputs (signed coin/message inputs with shared, duplicated, permuted and defective witnesses; predicate coin/message inputs with generated and hand-written programs). check_signatures Ok iff every referenced witness is 64 bytes recovering (Signature::recover called by the oracle, sha256 of the key) to the input owner over the id and every predicate owner equals sha256('FUEL' || reference code root); every single-field mutation of an accepted transaction judged again (signed content / referenced witness => must fail, malleable field / unreferenced witness => stays Ok). check_predicates Ok iff for every predicate input: owner matches, harness-side reference run (own interpreter, init_predicate, public execute loop) with limit = declared gas returns 1 with 0 gas left; total gas = sum of declared. estimate then verify: if every predicate returns 1 under the maximum limit, verification of the estimated tx succeeds. check/estimate_predicates_async on a one-thread-per-task executor releasing completions in identity/reverse/seed-chosen permutations (and a micro-sleep mode) over a pool of dirty memories must agree with the sequential functions. class = (input mix, predicate outcome class, completion-order class), lens classes, per-program-kind outcome classes, distinct permutations";
+    let rule = "generated script transactions with 1..8 inputs (signed coin/message inputs with shared, duplicated, permuted and defective witnesses; predicate coin/message inputs with generated and hand-written programs). check_signatures Ok iff every referenced witness is 64 bytes recovering (Signature::recover called by the oracle, sha256 of the key) to the input owner over the id and every predicate owner equals sha256('FUEL' || reference code root); every single-field mutation of an accepted transaction judged again (signed content / referenced witness => must fail, malleable field / unreferenced witness => stays Ok), signed-content mutations also applied in place to the transaction taken out of its Checked wrapper (cached metadata) and checked again from the start. check_predicates Ok iff for every predicate input: owner matches, harness-side reference run (own interpreter, init_predicate, public execute loop) with limit = declared gas returns 1 with 0 gas left; total gas = sum of declared. estimate then verify: if every predicate returns 1 under the maximum limit, verification of the estimated tx succeeds. check/estimate_predicates_async on a one-thread-per-task executor releasing completions in identity/reverse/seed-chosen permutations (and a micro-sleep mode) over a pool of dirty memories must agree with the sequential functions. class = (input mix, predicate outcome class, completion-order class), lens classes, per-program-kind outcome classes, distinct permutations";
     if let Some(r) = &cfg.replay {
         let mut rep = Report::new();
         let seed = r["seed"].as_u64().unwrap_or(cfg.seed);
